@@ -6,7 +6,7 @@ LEVEL = "other"
 EXHAUSTIVE = False
 EXPLANATION = ("Static analysis of the MIR of every instance of the runtime skeleton: cursor/tree balance on all paths (S1), "
                "completion at end of input (S2), snapshot/restore symmetry (S3), node-vector mutation discipline (S4), and no "
-               "consumption at end of input in generated rule functions (G-P1, token-set abstract interpretation). Decides structural "
+               "consumption at end of input in generated rule functions (G-P1, token-set abstract interpretation). S5: a pending error node is closed before any other tree operation (a node inserted into an open error node makes a token appear twice); G-F2: no error report (which opens an error node) while an ordered-choice attempt can still be revoked (its mark would survive the truncation). Decides structural "
                "necessary conditions of losslessness for all inputs; does not decide that the child iterator reaches every pushed node.")
 
 
@@ -16,5 +16,6 @@ def run(ctx, rep):
         lambda i, r, o: skel.s2_complete(i, r),
         lambda i, r, o: skel.s3_snapshot(i, r),
         lambda i, r, o: skel.s4_nodes(i, r),
+        lambda i, r, o: skel.s5_errnode(i, r),
     ])
-    common.g_rules(ctx, rep, ["P1", "F6"], floors={"P1": 500})
+    common.g_rules(ctx, rep, ["P1", "F6", "F2"], floors={"P1": 500})
